@@ -490,6 +490,9 @@ type zoneEngine struct {
 	entryFacts func(fn *ssa.Function) []zEntryFact
 	// inLoop: blocks of the current function that belong to a natural loop (their values are redefined)
 	inLoop map[*ssa.BasicBlock]bool
+	// zone_inline.go: read-only leaf helpers are evaluated in the caller's state
+	inlining bool
+	inlineOK map[*ssa.Function]bool
 }
 
 func (z *zoneEngine) slcanon(v ssa.Value) ssa.Value {
@@ -1400,6 +1403,9 @@ func (z *zoneEngine) call(s *zstate, c *ssa.Call, record bool) {
 	}
 	ct := z.contractFor(c)
 	if ct == nil {
+		if f := z.inlineTarget(c); f != nil {
+			z.inlineCall(s, c, f)
+		}
 		return
 	}
 	if record {
